@@ -6,7 +6,8 @@ import IcyVerif.Drv.Util
 `artio load <fmt> <sauce> <hex>`            the picture the reader model loads
    fmt   = asc | pcb | an1 | msg | avt | ata | ans
    prep  = 0 none | 1 clear screen | 2 home
-   pic   = `w h ice nextra {r g b}* nrows {len {ch fg bg flags}*}*` (ice: 0 blink, 1 ice, 2 unlimited)
+   pic   = `w h ice nextra {r g b}* nrows {len {ch fg bg flags}*}*` (ice: 0 blink, 1 ice, 2 unlimited;
+           nextra = 100000 + n: the n colours are the whole palette)
    sauce = `-` | `w,h,ice`
 answer of `load`: `<w> <h> <ice> <stuck> <rows> <palette tail>`; rows = `h;row;row…`, each row trimmed of trailing
 cells that are blank, default-coloured and flag-free, cells `ch.fg.bg.flags` (INVISIBLE bit cleared), runs `n*cell`;
@@ -80,10 +81,11 @@ def row : P (List Cell) := fun xs =>
   | none => none
   | some (n, xs) => many cell n xs
 
-/-- `w h ice nextra {r g b}* nrows {len {cell}*}*`; rows are padded with empty rows up to `h` and cut at `w` cells -/
+/-- `w h ice nextra {r g b}* nrows {len {cell}*}*`; rows are padded with empty rows up to `h` and cut at `w` cells.
+    `nextra = 100000 + n`: the `n` colours are the WHOLE palette (a custom base palette), not an extension of the DOS one -/
 def pic : P Pic
   | w :: h :: ice :: nex :: xs =>
-    match many rgb nex xs with
+    match many rgb (if 100000 ≤ nex then nex - 100000 else nex) xs with
     | none => none
     | some (extra, xs) =>
       match nat xs with
@@ -94,7 +96,7 @@ def pic : P Pic
         | some (rows, xs) =>
           let rows := (rows.map (·.take w)).take h
           let rows := rows ++ List.replicate (h - rows.length) []
-          some ({ w := w, rows := rows, ice := iceOfNat ice, pal := dosPalette ++ extra }, xs)
+          some ({ w := w, rows := rows, ice := iceOfNat ice, pal := if 100000 ≤ nex then extra else dosPalette ++ extra }, xs)
   | _ => none
 
 def showOut : WOut → String
